@@ -41,10 +41,12 @@ def run_arrays(rng, thorough, out):
         g = Grid(v, e)
         ea = [[int(x) for x in c] for c in g.edge_adjacency.T]
         va = [[int(x) for x in c] for c in g.vertex_adjacency.T]
-        for k in range(n):
-            order = int(rng.integers(1, 7))
+        # high orders (large offsets) on the small grids only: the arrays have 42 n^4 columns
+        high = [7, 9, 12, 16] if tag in ("tetrahedron", "fan") else []
+        for k in range(n + len(high)):
+            order = int(rng.integers(1, 7)) if k < n else high[k - n]
             nel = g.number_of_elements
-            if k == 0:
+            if k == 0 or k >= n:
                 ts = np.ones(nel, dtype=bool)
                 rs = np.ones(nel, dtype=bool)
             else:
